@@ -28,6 +28,8 @@ pub struct RxCtrState {
 }
 
 impl RxCtrState {
+    // Used by the group counter store (trust-first) and by the tests
+    #[cfg_attr(not(any(feature = "groups", test)), allow(dead_code))]
     pub const fn new(max_ctr: u32) -> Self {
         Self {
             max_ctr,
